@@ -54,7 +54,9 @@ def clang_dump(tu_path, filt, cache_dir, extra=()):
     out = os.path.join(cache_dir, h + '.json')
     if os.path.exists(out) and os.path.getsize(out) > 0:
         return out
-    cmd = CLANG_ARGS + list(extra) + ['-Xclang', '-ast-dump=json', '-Xclang', '-ast-dump-filter=' + filt, tu_path]
+    # ASLR off: node ids (pointer values) are then identical across clang runs over the same TU, so dumps made with
+    # different filters can be joined by id
+    cmd = ['setarch', 'x86_64', '-R'] + CLANG_ARGS + list(extra) + ['-Xclang', '-ast-dump=json', '-Xclang', '-ast-dump-filter=' + filt, tu_path]
     with open(out + '.tmp', 'wb') as f:
         r = subprocess.run(cmd, stdout=f, stderr=subprocess.PIPE)
     if r.returncode != 0:
@@ -125,11 +127,17 @@ class Translator:
         self.by_contract = set()  # cnames to be emitted as prototypes only (bodiless; contract from spec)
         self.canary_fns = set()
         self.virtual_dispatch = {}
+        self._tu_index = {}
+        self.switch_slice = {}   # (cname, switch ordinal) -> (slice index, number of slices)
+        self.switch_groups = {}
 
     # ------------------------------------------------------------------ loading
     def load(self, tu_path, filt, extra=()):
         path = clang_dump(tu_path, filt, self.cache_dir, extra)
         text = open(path).read()
+        # ids are per TU: prefix them with the TU's index so that several TUs can be loaded into one unit
+        k = self._tu_index.setdefault(tu_path, len(self._tu_index))
+        text = re.sub(r'"0x([0-9a-f]+)"', r'"T%d_\1"' % k, text)
         self._cur_line = None; self._cur_file = None
         for doc in docs_of(text):
             self._index(doc, None, filt)
